@@ -20,6 +20,14 @@ CHECKS = {
             "TLC proves on the SecIds module, over all (position, character) pairs, that completed identifiers validate, any other check character fails, wrong lengths/prefixes fail, single-digit errors are detected and converted ISINs validate; the real cusip/sedol/isin functions are run on the emitted grid, on random bases, on all check-character replacements and agency prefixes (thorough: all 10^6 digits-only SEDOL bases) and TLC recomputes every result.",
             "Trusted: TLC, the transcription of the published CUSIP/SEDOL/ISIN algorithms, lib.NUMBERING_AGENCIES as exported. python -O (asserts off) is out of scope.",
             "DESIGN.md section 6 C20"),
+    "C05": ("TLA+ OFXHeader reference reading (character-level) of whole files: TLC layout product + TLC-emitted layouts replayed + trace validation of real parse_header calls",
+            "TLC checks on OFXHeader that for every layout the writer can choose (separators CRLF/LF/CR/none/blank, blanks after the colon, leading blank lines, header-body gaps, three character sets, v2 quote styles and line breaks) the reference reading returns exactly the chosen fields and body; emitted layouts and seeded random files are parsed by the real parse_header and TLC reads every file itself (bytes -> fields, body decoded per charset) to judge the result.",
+            "Trusted: TLC, the header grammar and the cp1252/latin-1/UTF-8 tables in OFXHeader.tla. Unjudged: omitted COMPRESSION, v1 versions outside 1xx, bodies not encodable in the declared charset, text before the first '<'.",
+            "DESIGN.md section 6 C05"),
+    "C12": ("TLA+ OFXHeader: TLC corruption/omission/transposition theorems + all versions through make_header/str/parse_header + constructor domains, trace-validated",
+            "TLC checks that every single-field corruption, omission and transposition of generated v1/v2 headers is refused by the reference reading; the corrupted files are fed to the real parser, make_header is driven over every version 0..999 (and non-numeric/over-long), security levels and UID classes, constructors over every field domain, and TLC judges kind, parse-back equality and refusal with OFXHeaderError.",
+            "Trusted: TLC, field domains transcribed from OFX 2.2 in OFXHeader.tla. Unjudged: UIDs within length holding characters outside [A-Za-z0-9_-], v1 versions outside 1xx, omitted COMPRESSION.",
+            "DESIGN.md section 6 C12"),
 }
 
 PENDING = {}
